@@ -87,7 +87,7 @@ def run_property(prop, tier, seed, jobs, only=None):
         st_errors = selftest.run(D.discharge, 'quick')
     except Exception as ex:
         st_errors = ['self-test crashed: %r' % ex]
-    selftest_info = dict(pairs=6, ok=not st_errors, seconds=round(time.time() - st0, 2))
+    selftest_info = dict(pairs=len(selftest._contracts()) // 2, ok=not st_errors, seconds=round(time.time() - st0, 2))
     errors.extend('self-test: ' + e for e in st_errors)
     n_obl = n_dis = 0
     samples = []
